@@ -31,6 +31,9 @@ type c16Case struct {
 	// MailFault: the compared request runs with the mail sender ("send") or the mail
 	// renderer ("render") failing - in both worlds; only the one with the account has mail to lose.
 	MailFault string `json:"mail_fault,omitempty"`
+	// KnownPW (login-exists pair): the stored password of the known account is "" normal,
+	// "empty" (account created by an OAuth2 sign-in or an invitation) or "garbage" (not a bcrypt hash)
+	KnownPW string `json:"known_pw,omitempty"`
 }
 
 var c16PreludeKinds = []string{"rec-known", "rec-known", "rec-unknown", "login-ok", "login-page", "adv1", "adv45", "adv90", "newsess"}
@@ -59,7 +62,8 @@ func c16Prelude(w *harness.World, c c16Case, mk func(w *harness.World, route, pi
 				w.Do(mk(w, "/recover", c.Unknown, ""))
 			}
 		case "login-ok":
-			if c.Kind != "locked-pw" && c.Cfg.Has("auth") {
+			// (an account without a usable hash cannot log in with a password: the request would be a failed attempt)
+			if c.Kind != "locked-pw" && c.Cfg.Has("auth") && c.KnownPW == "" {
 				w.Do(mk(w, "/login", known.PID, known.Password))
 				w.Jars[0].ClearSession()
 			}
@@ -125,6 +129,12 @@ func c16World(c c16Case) (*harness.World, error) {
 			u.Locked = time.Time{}
 		}
 		u.Confirmed = true
+		switch c.KnownPW {
+		case "empty":
+			u.Password = ""
+		case "garbage":
+			u.Password = "$2a$04$tooshort"
+		}
 	})
 	return w, nil
 }
@@ -271,6 +281,9 @@ func c16Gen(t *rapid.T) c16Case {
 		}
 	}
 	c.Cfg.Accounts[0].Locked, c.Cfg.Accounts[0].Unconfirmed = false, false
+	if c.Kind == "login-exists" {
+		c.KnownPW = pick(t, "knownpw", "", "", "", "empty", "garbage")
+	}
 	if c.Kind == "recover-exists" && c.Cfg.Mailer == "" {
 		c.MailFault = pick(t, "mailfault", "", "", "send", "render")
 	}
@@ -293,7 +306,7 @@ func TestC16(t *testing.T) {
 		c := c16Gen(rt)
 		v := c16Run(c)
 		a := c.Cfg.Accounts[0]
-		cls := fmt.Sprintf("%s|json=%v|%v|%v|cnt=%d|ago=%d|totp=%v|sms=%v|rm=%v|mw=%s|err500=%v", c.Kind, c.Cfg.JSON, c.Cfg.Modules, c.Cfg.Setups, c.Count, c.LastAgoS, a.TOTP, a.Phone != "", c.RM, c.Cfg.Middleware, c.Cfg.Err500) + "|" + strings.Join(c.Prelude, ",") + "|" + c.MailFault
+		cls := fmt.Sprintf("%s|json=%v|%v|%v|cnt=%d|ago=%d|totp=%v|sms=%v|rm=%v|mw=%s|err500=%v", c.Kind, c.Cfg.JSON, c.Cfg.Modules, c.Cfg.Setups, c.Count, c.LastAgoS, a.TOTP, a.Phone != "", c.RM, c.Cfg.Middleware, c.Cfg.Err500) + "|" + strings.Join(c.Prelude, ",") + "|" + c.MailFault + "|" + c.KnownPW
 		classes := []string{"pair:" + c.Kind}
 		if len(c.Prelude) > 0 {
 			classes = append(classes, "with-prelude")
